@@ -356,6 +356,23 @@ impl RpuDataMapping {
             _ => (),
         };
 
+        // The mapping method is consistent for a component: one curve holds every piece
+        for curve in &self.curves {
+            let num_pieces = curve.num_pivots_minus2 as usize + 1;
+
+            if let Some(poly_curve) = &curve.polynomial {
+                ensure!(
+                    poly_curve.poly_order_minus1.len() == num_pieces,
+                    "polynomial curve should have one entry per piece"
+                );
+            } else if let Some(mmr_curve) = &curve.mmr {
+                ensure!(
+                    mmr_curve.mmr_order_minus1.len() == num_pieces,
+                    "MMR curve should have one entry per piece"
+                );
+            }
+        }
+
         ensure!(
             self.mapping_color_space == 0,
             "mapping_color_space should be 0"
